@@ -123,6 +123,30 @@ def multisig_contained(opcode: OneOf(0xae, 0xaf), script: Bytes(cls=CScript), st
     ensures(len(stack) <= old(len(stack)) - 1)
 
 
+@contract('bitcoin.core.scripteval:_CheckMultiSig', name='multisig_nulldummy', prop=[P6])
+def multisig_nulldummy(opcode: OneOf(0xae, 0xaf), script: Bytes(cls=CScript), stack: ListOf(Bytes), txTo: Any,
+                       inIdx: Int, flags: FlagSet(**MS_FLAGS), err_raiser: Raiser, nOpCount: ListOf(Int)):
+    """NULLDUMMY: when the flag is set, CHECKMULTISIG(VERIFY) only succeeds if the extra element it consumes
+    is exactly the empty vector (not merely a false value); elements below it are untouched"""
+    requires(len(nOpCount) == 1 and 0 <= nOpCount[0] and nOpCount[0] <= 201)
+    option(modifies=['stack', 'nOpCount'])
+    loopvar(0, 'script', Bytes(cls=CScript))
+    invariant(1, ikey + keys_count == pre(ikey) + pre(keys_count) and isig + sigs_count == pre(isig) + pre(sigs_count)
+              and 0 <= sigs_count and 0 <= keys_count and sigs_count <= pre(sigs_count)
+              and implies(success, sigs_count <= keys_count)
+              and len(stack) == pre(len(stack)) and i == pre(i) and ikey >= 2 and isig >= pre(isig)
+              and stack == pre(stack))
+    decreases(1, keys_count)
+    invariant(2, i >= 1 and len(stack) == pre(len(stack)) - (pre(i) - i) and len(stack) >= i
+              and stack == pre(stack)[:len(stack)])
+    decreases(2, i)
+    raises(EvalScriptError)
+    raises(CScriptInvalidError)
+    ensures(implies(se.SCRIPT_VERIFY_NULLDUMMY in flags,
+                    old(stack)[len(stack) - ite(opcode == 0xae, 1, 0)] == b''))
+    ensures(stack[:len(stack) - ite(opcode == 0xae, 1, 0)] == old(stack)[:len(stack) - ite(opcode == 0xae, 1, 0)])
+
+
 ALLFLAGS = dict(P2SH=se.SCRIPT_VERIFY_P2SH, NULLDUMMY=se.SCRIPT_VERIFY_NULLDUMMY,
                 CLEANSTACK=se.SCRIPT_VERIFY_CLEANSTACK,
                 DISCOURAGE_UPGRADABLE_NOPS=se.SCRIPT_VERIFY_DISCOURAGE_UPGRADABLE_NOPS)
